@@ -69,7 +69,7 @@ const (
 )
 
 // verifRequired: the permissions a command type needs (ALL of them), nil = no permission defined.
-// JOIN is special (depends on the voter flag) and handled in verifJoinAllowed.
+// JOIN is special (depends on the voter flag) and handled in verifAuthorized.
 func verifRequired(t proto.Command_Type) []string {
 	switch t {
 	case proto.Command_COMMAND_TYPE_EXECUTE:
@@ -915,7 +915,8 @@ func verifExecuteReq(idx int) *verifReq {
 
 // verifBytesWorld builds the connection of VerifC35Bytes / VerifC35HugePrefix / the twin.
 // tail: 0 end inside the prefix, 1 announced length not delivered, 2 unparseable frame then a valid
-// command, 3 empty frame then a valid command. lo/hi: extra bounds on the announced length.
+// command, 3 empty frame then a valid command. hugeOnly: only the announced-length tail, with the
+// length restricted to what the native replay cannot allocate.
 func verifBytesWorld(tail int, hugeOnly bool) (*Service, *verifWorld, int) {
 	verifHasAnnounced, verifAnnounced = false, 0
 	var reqs []*verifReq
@@ -1006,10 +1007,8 @@ func VerifC35Bytes() {
 	if c.failDL == 0 {
 		switch tail {
 		case 0:
-			verifAssert("C35-partial-prefix-is-consumed-and-dropped", c.off == len(c.in))
 			verifReach("end-inside-prefix")
 		case 1:
-			verifAssert("C35-short-payload-is-consumed-and-dropped", c.off == len(c.in))
 			verifReach("short-payload")
 		case 2:
 			verifReach("unparseable-frame")
